@@ -47,6 +47,10 @@ class Engine(ExprMixin, CallMixin):
             elif isinstance(n, ast.ClassDef):
                 for m in n.body:
                     if isinstance(m, ast.FunctionDef):
+                        if any(isinstance(d, ast.Attribute) and d.attr in ("setter", "deleter") for d in m.decorator_list):
+                            # `@prop.setter def prop(self, value)`: the write accessor of a property.  Reading obj.prop still runs
+                            # the getter, so the name stays bound to the getter's def (funcs is consulted for reads and calls only)
+                            continue
                         self.funcs[f"{n.name}.{m.name}"] = m
         self.contracts = dict(getattr(sidecar, "CONTRACTS", {}))
         self.inline = set(getattr(sidecar, "INLINE", ()))
@@ -910,6 +914,11 @@ class Engine(ExprMixin, CallMixin):
                 shp = self.shape(shp)
                 if isinstance(val, VList) and val.elems is None:
                     return self.default_of(shp)
+                if isinstance(val, VEmptyDict) and shp[0] == "rec" and self.classes.get(shp[1], {}).get("dict_keys"):
+                    # `d = {}` for a local declared as a dict with a fixed key set (record class with "dict_keys"): the empty
+                    # dict has none of the keys, so it is NOT a value of the record - it stays the untyped empty dict, which no
+                    # operation reads (every use is refused as Unsupported); a later full dict literal re-binds the local
+                    return val
                 if isinstance(val, (VEmptyDict, VEmptySet)):
                     return self.empty_of(shp, val)
                 if val is None and shp[0] == "opt":
@@ -1650,24 +1659,39 @@ class Engine(ExprMixin, CallMixin):
                 head = head.strip()[7:]
             name, params = head.strip().rstrip(")").split("(")
             name, params = name.strip(), [p_.strip() for p_ in params.split(",") if p_.strip()]
+            # a parameter may name its sort, "L:str" (int / bool / real / str; default int): same conservative extension
+            psorts = [self.sort_of(p_.split(":", 1)[1].strip()) if ":" in p_ else z3.IntSort() for p_ in params]
+            params = [p_.split(":", 1)[0].strip() for p_ in params]
             s2 = st.copy()
             s2.ghost = dict(st.ghost)
-            cs = [z3.Int(uid(p_)) for p_ in params]
+            cs = [z3.Const(uid(p_), srt_) for p_, srt_ in zip(params, psorts)]
             for p_, c0 in zip(params, cs):
                 s2.ghost[p_] = c0
             body = self.spec_value(expr, s2)
             if not (is_bool(body) or is_int(body)):
                 raise ContractError(f"define {name}: the defining expression must be a Bool or an Int")
             body = to_z3(body)
-            f = z3.Function(uid(name), *([z3.IntSort()] * len(params) + [body.sort()]))
+            f = z3.Function(uid(name), *(psorts + [body.sort()]))
             st.ghost[name] = VFunc("pyfunc", (lambda f: lambda *a: f(*[to_z3(x) for x in a]))(f), name)
-            bs = [z3.Int(uid(p_ + "b")) for p_ in params]
+            bs = [z3.Const(uid(p_ + "b"), srt_) for p_, srt_ in zip(params, psorts)]
             ax = z3.ForAll(bs, z3.substitute(f(*cs) == body, *zip(cs, bs)), patterns=[f(*bs)])
             if opaque:
                 st.ghost["__opaque__"] = dict(st.ghost.get("__opaque__", {}), **{name: ax})
             else:
                 st.ghost["__defs__"] = list(st.ghost.get("__defs__", ())) + [ax]
                 st.assume(ax)
+        elif cmd.startswith("reveal ") and "(" in cmd:
+            # "reveal P(e1, e2)": the instance of P's defining axiom at the given arguments only (P(e1, e2) == body[e1, e2]) -
+            # a ground fact where the quantified axiom would put the whole body under a quantifier
+            pname, argtext = cmd[7:].strip().split("(", 1)
+            ax = st.ghost.get("__opaque__", {}).get(pname.strip())
+            if ax is None:
+                raise ContractError(f"reveal: no opaque definition named {pname.strip()!r}")
+            call_ = ast.parse(pname.strip() + "(" + argtext, mode="eval").body
+            vals_ = [to_z3(self.spec_value(ast.unparse(a_), st)) for a_ in call_.args]
+            if len(vals_) != ax.num_vars() or any(v_.sort() != ax.var_sort(k_) for k_, v_ in enumerate(vals_)):
+                raise ContractError(f"reveal {pname.strip()}: wrong number or sorts of arguments")
+            st.assume(z3.substitute_vars(ax.body(), *reversed(vals_)))
         elif cmd.startswith("reveal "):
             ax = st.ghost.get("__opaque__", {}).get(cmd[7:].strip())
             if ax is None:
